@@ -118,6 +118,10 @@ def token(x):
     return None if x is None else hashlib.sha1(json.dumps(x, sort_keys=True).encode()).hexdigest()[:16]
 
 
+def token_store(st):
+    return {k: token(v) for k, v in st.items()}
+
+
 def first_difference(a, b, path=""):
     if type(a) is not type(b):
         return f"{path}: {str(a)[:60]!r} != {str(b)[:60]!r}"
@@ -207,6 +211,9 @@ def build_detector(d):
                 init_ver_position=np.array([p[2] for p in parts], dtype=float),
                 init_hor_position=np.array([p[3] for p in parts], dtype=float),
                 init_z_position=z, init_ver_velocity=z, init_hor_velocity=z, init_z_velocity=z)
+            if c["charge"].get("remove_first") and n >= 2:
+                # leaves a cluster table whose row labels do not start at 0 (labels are handles, not data)
+                det.charge.remove_from_frame([int(det.charge.frame.index[0])])
     for k in range(c.get("scene") or 0):
         nref = 2 + k
         src = xr.Dataset(
@@ -283,18 +290,55 @@ def file_detector_desc(rng, kind, rows, cols):
     return {"type": kind, "rows": rows, "cols": cols, "geometry": {}, "environment": {}, "characteristics": {}, "containers": c}
 
 
+KEYS2D = ["photon", "pixel", "signal", "image", "charge", "phase"]
+TIMES = [1.0, 2.0, 3.0]  # every time step is 1 s, so probes.fill writes exactly `level`
+
+
+def file_arrays(fdet):
+    """the stored detector's 2-D containers as arrays (None = uninitialised / nothing added)"""
+    import numpy as np
+
+    out = {}
+    for k in ("photon", "pixel", "signal", "image", "phase"):
+        cont = getattr(fdet, "_" + k, None)
+        if cont is None and k == "phase":
+            continue
+        arr = None if cont is None else cont._array
+        out[k] = None if arr is None else np.array(arr, copy=True)
+    ch = np.array(fdet.charge.array, copy=True)
+    out["charge"] = ch if np.any(ch) else None
+    return out
+
+
+def norm_store(store):
+    """canonical comparison form of a set of 2-D containers"""
+    import numpy as np
+
+    out = {}
+    for k, v in store.items():
+        if v is None or (k == "charge" and not np.any(v)):
+            out[k] = None
+        else:
+            out[k] = canon(np.asarray(v))
+    return out
+
+
+def save_file_detector(case, tmp):
+    fdet, _ = build_detector(case["file"])
+    path = os.path.join(tmp, f"pl_{case['stream']}_{case['id']}.asdf")
+    if os.path.exists(path):
+        os.remove(path)
+    fdet.save(path)
+    return fdet, path
+
+
 def impl_pipeline(case, tmp):
-    """a real single-readout exposure whose pipeline contains `load_detector` at position case['at']"""
+    """real exposures (1-3 readouts, 1-2 runs in one process) whose pipeline contains `load_detector`"""
     import numpy as np
     import probes
     import pyx
 
-    fdesc = case["file"]
-    fdet, _ = build_detector(fdesc)
-    path = os.path.join(tmp, f"pl_{case['id']}.asdf")
-    if os.path.exists(path):
-        os.remove(path)
-    fdet.save(path)
+    fdet, path = save_file_detector(case, tmp)
     groups: dict = {}
     for g, kind, arg in case["models"]:
         lst = groups.setdefault(g, [])
@@ -305,95 +349,170 @@ def impl_pipeline(case, tmp):
             lst.append({"name": f"load{n}", "func": "pyxel.models.load_detector", "arguments": {"filename": path}})
         elif kind == "snap":
             lst.append({"name": f"snap{n}_{g[:4]}", "func": "probes.c18_snapshot", "arguments": {"tag": arg}})
+    nread = case.get("readouts", 1)
+    probes.reset()
+    finals = []
+    det = None
+    try:
+        for run in range(case.get("runs", 1)):
+            if det is None or case.get("fresh", True):
+                det = pyx.make_detector(case["type"], case["rows"], case["cols"])
+            res = pyx.run(pyx.make_exposure(times=TIMES[:nread], non_destructive=case.get("nd", False)), det,
+                          pyx.make_pipeline({g: groups[g] for g in GROUPS if g in groups}))
+            for i in range(nread):
+                fin = {}
+                for b in ("photon", "pixel", "signal", "image", "charge"):
+                    v = res[b].values
+                    fin[b] = None if v.ndim < 3 else np.asarray(v[i])
+                finals.append(norm_store(fin))
+    except Exception as e:  # noqa: BLE001
+        return {"err": "TypeError" if isinstance(e, TypeError) else common.err_kind(e), "msg": str(e)[:200],
+                "snaps": [[r[1], norm_store(r[2])] for r in probes.LOG if r[0] == "c18"], "files": file_arrays(fdet)}
+    return {"snaps": [[r[1], norm_store(r[2])] for r in probes.LOG if r[0] == "c18"], "finals": finals, "files": file_arrays(fdet)}
+
+
+def impl_direct(case, tmp):
+    """`load_detector` called several times on one detector object, with in-place changes in between"""
+    import probes
+    import pyx
+    from pyxel.models import load_detector
+
+    fdet, path = save_file_detector(case, tmp)
     det = pyx.make_detector(case["type"], case["rows"], case["cols"])
     probes.reset()
     try:
-        res = pyx.run(pyx.make_exposure(times=[1.0]), det, pyx.make_pipeline({g: groups[g] for g in GROUPS if g in groups}))
+        for op in case["ops"]:
+            if op[0] == "load":
+                load_detector(det, path)
+            elif op[0] == "snap":
+                probes.c18_snapshot(det, op[1])
+            elif op[0] == "iadd":
+                cont = getattr(det, op[1])
+                cont.array += float(op[2])
+            elif op[0] == "imul":
+                cont = getattr(det, op[1])
+                cont.array *= float(op[2])
+            elif op[0] == "empty":
+                det.empty(bool(op[1]))
     except Exception as e:  # noqa: BLE001
-        return {"err": "TypeError" if isinstance(e, TypeError) else common.err_kind(e), "msg": str(e)[:200]}
-    snaps = {}
-    for rec in probes.LOG:
-        if rec[0] == "c18":
-            snaps[rec[1]] = {k: (None if v is None else canon(np.asarray(v))) for k, v in rec[2].items()}
-    final = {}
-    for b in ("photon", "pixel", "signal", "image", "charge"):
-        v = res[b].values
-        final[b] = None if v.ndim < 3 else canon(np.asarray(v[0]))
-    if case["type"] == "MKID":
-        final["phase"] = None if det._phase._array is None else canon(np.asarray(det._phase.array))
-    return {"snaps": snaps, "final": final, "file": {k: v for k, v in snapshot(fdet)["containers"].items()}}
+        return {"err": "TypeError" if isinstance(e, TypeError) else common.err_kind(e), "msg": str(e)[:200],
+                "snaps": [[r[1], norm_store(r[2])] for r in probes.LOG if r[0] == "c18"], "files": file_arrays(fdet)}
+    return {"snaps": [[r[1], norm_store(r[2])] for r in probes.LOG if r[0] == "c18"], "finals": [], "files": file_arrays(fdet)}
 
 
-def store_2d(fsnap):
-    """file containers in the shape of the probe's snapshot (2-D arrays)"""
-    out = {}
-    for k, v in fsnap.items():
-        if k in ("scene", "data"):
-            continue
-        if v is None:
-            out[k] = None
-        elif k == "photon":
-            out[k] = v["array_2d"]
-        elif k == "charge":
-            out[k] = v["array"]
-        else:
-            out[k] = v
-    return out
-
-
-def expected_pipeline(case, file_store):
-    """the statement: after the load the running detector holds the file's data; later models change
-    only what they write (probes.fill writes level * time_step = level)"""
+def simulate(case, files):
+    """the statement, executed: every execution of the load model puts the FILE's containers into the running
+    detector; models and the emptying before each readout change only what they write.  Returns the expected
+    snapshots, the expected state after every load, the expected result of every readout, and the same history as
+    a flat list of steps for the Lean model."""
     import numpy as np
 
     rows, cols = case["rows"], case["cols"]
-    store = {k: None for k in file_store}
-    store["pixel"] = canon(np.zeros((rows, cols), dtype=float))  # Detector.empty() at the start of the readout
-    out = {"snaps": {}}
-    loaded = False
-    for g in GROUPS:
-        for gg, kind, arg in case["models"]:
-            if gg != g:
-                continue
-            if kind == "fill":
-                store[arg[0]] = canon(np.full((rows, cols), float(arg[1]), dtype=float))
-            elif kind == "load":
-                if case["file"]["type"] != case["type"]:
-                    return {"err": "TypeError"}
-                if [case["file"]["rows"], case["file"]["cols"]] != [rows, cols]:
-                    return {"err": "ValueError"}
-                store = dict(file_store)
-                loaded = True
-            elif kind == "snap":
-                out["snaps"][arg] = dict(store)
-    out["final"] = dict(store)
-    out["loaded"] = loaded
-    return out
+    keys = [k for k in KEYS2D if k in files]
+    store = {k: None for k in keys}
+    steps, snaps, loads, finals = [], [], [], []
+    mismatch = None
+    if case["file"]["type"] != case["type"]:
+        mismatch = "TypeError"
+    elif [case["file"]["rows"], case["file"]["cols"]] != [rows, cols]:
+        mismatch = "ValueError"
+
+    def write(k, v):
+        if k not in store:
+            return
+        store[k] = v
+        steps.append(["write", k, token(norm_store({k: v})[k])])
+
+    def empty(reset):
+        for k in ("photon", "charge", "signal", "image"):
+            write(k, None)
+        if reset:
+            write("pixel", np.zeros((rows, cols)))
+            if store.get("phase") is not None:
+                write("phase", np.zeros((rows, cols)))
+
+    def load():
+        nonlocal store
+        steps.append(["load", case["file"]["type"], [case["file"]["rows"], case["file"]["cols"]],
+                      {k: token(norm_store({k: files[k]})[k]) for k in keys}])
+        if mismatch:
+            return mismatch
+        store = {k: (None if files[k] is None else np.array(files[k], copy=True)) for k in keys}
+        loads.append(norm_store(store))
+        return None
+
+    if case["stream"] == "direct":
+        for op in case["ops"]:
+            if op[0] == "load":
+                err = load()
+                if err:
+                    return {"err": err, "steps": steps, "snaps": snaps, "loads": loads, "finals": finals}
+            elif op[0] == "snap":
+                snaps.append([op[1], norm_store(store)])
+            elif op[0] == "iadd":
+                write(op[1], store[op[1]] + float(op[2]))
+            elif op[0] == "imul":
+                write(op[1], store[op[1]] * float(op[2]))
+            elif op[0] == "empty":
+                empty(bool(op[1]))
+        return {"steps": steps, "snaps": snaps, "loads": loads, "finals": finals}
+
+    for run in range(case.get("runs", 1)):
+        if run == 0 or case.get("fresh", True):
+            store = {k: None for k in keys}
+        empty(True)  # `detector.empty()` when the exposure starts
+        for _ in range(case.get("readouts", 1)):
+            empty(not case.get("nd", False))
+            for g in GROUPS:
+                for gg, kind, arg in case["models"]:
+                    if gg != g:
+                        continue
+                    if kind == "fill":
+                        write(arg[0], np.full((rows, cols), float(arg[1])))
+                    elif kind == "load":
+                        err = load()
+                        if err:
+                            return {"err": err, "steps": steps, "snaps": snaps, "loads": loads, "finals": finals}
+                    elif kind == "snap":
+                        snaps.append([arg, norm_store(store)])
+            finals.append(norm_store({k: v for k, v in store.items() if k != "phase"}))
+    return {"steps": steps, "snaps": snaps, "loads": loads, "finals": finals}
+
+
+def describe(k, want, got):
+    return ("uninitialised" if got is None else "with other content") + (
+        " although the file holds data for it" if want is not None else " although the file has none")
 
 
 def statement_pipeline(case, impl):
-    if case["file"]["type"] != case["type"] or [case["file"]["rows"], case["file"]["cols"]] != [case["rows"], case["cols"]]:
+    """every execution of the load model is judged against the file's content"""
+    exp = simulate(case, impl["files"])
+    if "err" in exp:
         return None  # a stored detector of another type / shape: outside the statement (compared with the model only)
-    if "err" in impl:
-        return f"pipeline with load_detector failed: {impl['err']} {impl['msg'][:120]}"
-    exp = expected_pipeline(case, store_2d(impl["file"]))
-    for tag, want in exp["snaps"].items():
-        got = impl["snaps"].get(tag)
-        if got is None:
-            return f"snapshot '{tag}' missing"
+    nload = 0
+    for n, (tag, want) in enumerate(exp["snaps"]):
+        if tag == "after":
+            nload += 1
+        if n >= len(impl["snaps"]):
+            break
+        got_tag, got = impl["snaps"][n]
+        if got_tag != tag:
+            return f"probe order differs: expected '{tag}', got '{got_tag}'"
         for k in sorted(want):
-            if k == "charge" and want[k] is None:
-                continue  # a fresh charge container reports zeros
             if want[k] != got.get(k):
-                when = "after" if tag.startswith("after") else "before"
-                return (f"model placed {when} load_detector sees container '{k}' "
-                        + ("uninitialised" if got.get(k) is None else "with other content")
-                        + (" although the file holds data for it" if want[k] is not None else " although the file has none"))
-    for k in sorted(exp["final"]):
-        if k == "charge" and exp["final"][k] is None:
-            continue
-        if exp["final"][k] != impl["final"].get(k):
-            return f"the final result's '{k}' is not the loaded state (as modified by later models)"
+                if tag == "after":
+                    return (f"execution {nload} of load_detector in this process: the model placed after it sees container "
+                            f"'{k}' {describe(k, want[k], got.get(k))}")
+                return f"model placed before load_detector (probe {n}) sees container '{k}' {describe(k, want[k], got.get(k))}"
+    if "err" in impl:
+        return f"pipeline with load_detector failed at execution {nload + 1 if len(impl['snaps']) < len(exp['snaps']) else nload}: {impl['err']} {impl['msg'][:120]}"
+    if len(impl["snaps"]) != len(exp["snaps"]):
+        return f"{len(impl['snaps'])} probe calls, {len(exp['snaps'])} expected"
+    for n, want in enumerate(exp["finals"]):
+        got = impl["finals"][n] if n < len(impl["finals"]) else {}
+        for k in sorted(want):
+            if want[k] != got.get(k):
+                return f"the result of readout {n}: '{k}' is not the loaded state (as modified by later models)"
     return None
 
 
@@ -405,23 +524,9 @@ def req_roundtrip(case, impl):
             "store": {k: token(v) for k, v in s0["containers"].items()}}
 
 
-def req_pipeline(case, file_store):
-    steps = []
-    for g in GROUPS:
-        for gg, kind, arg in case["models"]:
-            if gg != g:
-                continue
-            if kind == "fill":
-                import numpy as np
-
-                steps.append(["write", arg[0], token(canon(np.full((case["rows"], case["cols"]), float(arg[1]), dtype=float)))])
-            elif kind == "load":
-                steps.append(["load", case["file"]["type"], [case["file"]["rows"], case["file"]["cols"]],
-                              {k: token(v) for k, v in file_store.items()}])
-    import numpy as np
-
-    init = {"pixel": token(canon(np.zeros((case["rows"], case["cols"]), dtype=float)))}
-    return {"op": "pipeline", "ty": case["type"], "shape": [case["rows"], case["cols"]], "init": init, "steps": steps}
+def req_pipeline(case, files):
+    sim = simulate(case, files)
+    return {"op": "pipeline", "ty": case["type"], "shape": [case["rows"], case["cols"]], "init": {}, "steps": sim["steps"]}
 
 
 # ------------------------------------------------------------------ generators
@@ -487,6 +592,7 @@ def gen_detector(rng, kind=None):
             ch_desc["particles"] = [[float(rng.randrange(1, 500)), float(rng.randrange(1, 9)),
                                      rng.uniform(0, rows * geometry["pixel_vert_size"] * 0.999),
                                      rng.uniform(0, cols * geometry["pixel_horz_size"] * 0.999)] for _ in range(rng.randrange(1, 4))]
+            ch_desc["remove_first"] = rng.random() < 0.3
         c["charge"] = ch_desc
     if rng.random() < 0.4:
         c["scene"] = rng.choice([1, 2])
@@ -534,7 +640,7 @@ def gen_pipelines(rng, n):
         models.append([GROUPS[at], "load", None])
         g_after = rng.randrange(at, len(GROUPS))
         models.append([GROUPS[g_after], "snap", "after"])
-        for _ in range(rng.choice([0, 0, 1, 2])):
+        for _ in range(rng.choice([0, 1, 1, 2])):
             g = rng.randrange(g_after, len(GROUPS))
             models.append([GROUPS[g], "fill", [rng.choice(["photon", "pixel", "signal"]), rng.randrange(100, 190)]])
         fkind, frows, fcols = kind, rows, cols
@@ -543,8 +649,33 @@ def gen_pipelines(rng, n):
             fkind = rng.choice([t for t in TYPES if t != kind])
         elif r < 0.16:
             frows = rows + 1
+        # the load model executes several times on one file in one process: several readouts and / or two runs
+        shape = i % 4
+        readouts, runs = [(1, 1), (rng.choice([2, 3]), 1), (1, 2), (rng.choice([2, 3]), 2)][shape]
         cases.append({"stream": "pipeline", "id": i, "type": kind, "rows": rows, "cols": cols, "at": GROUPS[at], "models": models,
+                      "readouts": readouts, "nd": rng.random() < 0.5, "runs": runs, "fresh": rng.random() < 0.5,
                       "file": file_detector_desc(rng, fkind, frows, fcols)})
+    return cases
+
+
+def gen_direct(rng, n):
+    """direct calls of the model function on one detector object, with in-place changes in between"""
+    cases = []
+    for i in range(n):
+        kind = TYPES[i % 4]
+        rows, cols = rng.choice([2, 3]), rng.choice([3, 4])
+        ops = []
+        for k in range(rng.choice([2, 3, 4])):
+            ops.append(["load"])
+            ops.append(["snap", "after"])
+            for _ in range(rng.choice([1, 2, 3])):
+                b = rng.choice(["pixel", "signal", "photon"] + (["phase"] if kind == "MKID" else []))
+                ops.append(["imul", b, rng.choice([2.0, 0.5, 3.0])] if rng.random() < 0.5 else ["iadd", b, float(rng.randrange(1, 50))])
+            if rng.random() < 0.5:
+                ops.append(["empty", rng.random() < 0.5])
+                ops.append(["snap", "emptied"])
+        cases.append({"stream": "direct", "id": i, "type": kind, "rows": rows, "cols": cols, "ops": ops,
+                      "file": file_detector_desc(rng, kind, rows, cols)})
     return cases
 
 
@@ -553,7 +684,7 @@ def evaluate(case, tmp):
     if case["stream"].startswith("roundtrip"):
         impl = impl_roundtrip(case, tmp)
         return impl, statement_roundtrip(case, impl)
-    impl = impl_pipeline(case, tmp)
+    impl = impl_direct(case, tmp) if case["stream"] == "direct" else impl_pipeline(case, tmp)
     return impl, statement_pipeline(case, impl)
 
 
@@ -561,7 +692,7 @@ def slim(impl):
     """keep replays small: snapshots are recomputed by --replay"""
     if "before" in impl:
         return {k: v for k, v in impl.items() if k not in ("before", "after")}
-    return {k: v for k, v in impl.items() if k in ("err", "msg")}
+    return {k: (v if k != "snaps" else [t for t, _ in v]) for k, v in impl.items() if k in ("err", "msg", "snaps")}
 
 
 def body(ck: common.Check):
@@ -571,7 +702,8 @@ def body(ck: common.Check):
     ck.obligations(["PyxelModel.Props.C18"], ["PyxelModel.Drive.C18"])
     rng = ck.rng
     quick = ck.tier == "quick"
-    cases = gen_roundtrips(rng, 160 if quick else 2500) + gen_pipelines(rng, 48 if quick else 600)
+    cases = (gen_roundtrips(rng, 160 if quick else 2500) + gen_pipelines(rng, 48 if quick else 500)
+             + gen_direct(rng, 24 if quick else 300))
 
     tmp = tempfile.mkdtemp(prefix="verif-c18-")
     try:
@@ -583,12 +715,8 @@ def body(ck: common.Check):
                 if "before" in impl:
                     reqs.append(req_roundtrip(case, impl))
                     idx.append(n)
-            elif "file" in impl:
-                reqs.append(req_pipeline(case, store_2d(impl["file"])))
-                idx.append(n)
-            else:  # the run failed: the model still says whether it should have
-                fdet, _ = build_detector(case["file"])
-                reqs.append(req_pipeline(case, store_2d(snapshot(fdet)["containers"])))
+            else:
+                reqs.append(req_pipeline(case, impl["files"]))
                 idx.append(n)
         answers = dict(zip(idx, LeanDriver("C18").batch(reqs)))
         for n, (case, (impl, why)) in enumerate(zip(cases, results)):
@@ -626,25 +754,44 @@ def body(ck: common.Check):
                     ck.violation(f"C18:{d['type']}:{fld}", why, {"case": case, "impl": slim(impl)})
             else:
                 ck.case(case, nontrivial=True, stream=s)
-                ck.count(f"pipeline:type={case['type']}")
-                ck.count(f"pipeline:load-in={case['at']}")
+                ck.count(f"{s}:type={case['type']}")
                 mismatch = case["file"]["type"] != case["type"] or case["file"]["rows"] != case["rows"]
-                ck.count("pipeline:" + ("mismatching-file" if mismatch else "matching-file"))
-                if "err" in impl:
-                    mine = {"err": impl["err"]}
+                ck.count(f"{s}:" + ("mismatching-file" if mismatch else "matching-file"))
+                nexec = sum(1 for t, _ in impl["snaps"] if t == "after")
+                ck.count(f"{s}:executions-of-load={min(nexec, 6)}")
+                if s == "pipeline":
+                    ck.count(f"pipeline:load-in={case['at']}")
+                    ck.count(f"pipeline:readouts={case['readouts']}:{'non-destructive' if case['nd'] else 'destructive'}")
+                    ck.count(f"pipeline:runs={case['runs']}" + (":fresh-detector" if case["fresh"] and case["runs"] > 1 else
+                                                                 ":same-detector" if case["runs"] > 1 else ""))
+                # model: what the probe placed after each execution of the load model sees, and the last result
+                after = [token_store(st) for t, st in impl["snaps"] if t == "after"]
+                if "err" in ans["loads"]:
+                    mine_loads, model_loads = ({"err": impl.get("err")}, {"err": ans["loads"]["err"]})
                 else:
-                    keys = sorted(ans["model"].get("ok", ans["noop"].get("ok", {})).keys())
-                    fin = dict(impl["final"])
-                    if fin.get("charge") is not None and set(bytes.fromhex(fin["charge"]["hex"])) == {0}:
-                        fin["charge"] = None  # a charge container nothing was added to reports zeros
-                    mine = {"ok": {k: token(fin.get(k)) for k in keys}}
-                if mine != ans["model"]:
-                    like_noop = mine == ans["noop"]
-                    ck.count("pipeline:behaves-like-no-op" if like_noop else "pipeline:other-disagreement")
-                    ck.disagreement(s, case, mine, ans["model"], key="C18:load_detector:no-effect" if like_noop else None)
+                    keys = [k for k in KEYS2D if k in impl["files"]]
+                    model_loads = [{k: m.get(k) for k in keys} for m in ans["loads"]["ok"]]
+                    mine_loads = [{k: a.get(k) for k in keys} for a in after]
+                if mine_loads != model_loads:
+                    shared = [None if m is None else {k: m.get(k) for k in model_loads[0]} for m in ans["shared_loads"]] if model_loads and isinstance(model_loads, list) else None
+                    like_shared = shared is not None and mine_loads == [x for x in shared if x is not None][: len(mine_loads)] and len(mine_loads) > 1
+                    ck.count(f"{s}:behaves-like-shared-cache" if like_shared else f"{s}:disagreement-after-load")
+                    ck.disagreement(s, case, mine_loads, model_loads, key="C18:load_detector:not-the-file-state" if like_shared else None)
+                if s == "pipeline" and "err" not in impl and "ok" in ans["model"] and impl["finals"]:
+                    fin = token_store(impl["finals"][-1])
+                    model_fin = {k: ans["model"]["ok"].get(k) for k in fin}
+                    if fin != model_fin:
+                        like_noop = "ok" in ans["noop"] and fin == {k: ans["noop"]["ok"].get(k) for k in fin}
+                        ck.count("pipeline:behaves-like-no-op" if like_noop else "pipeline:other-disagreement")
+                        ck.disagreement(s, case, fin, model_fin, key="C18:load_detector:no-effect" if like_noop else None)
                 if why is not None:
-                    ck.violation("C18:load_detector:no-effect" if ("load_detector sees" in why or "final result" in why) else "C18:load_detector:error",
-                                 why, {"case": case, "impl": slim(impl)})
+                    if "execution 1 of" in why or "result of readout 0" in why:
+                        key = "C18:load_detector:no-effect"
+                    elif "execution" in why or "result of readout" in why or "failed at execution" in why:
+                        key = "C18:load_detector:not-the-file-state"
+                    else:
+                        key = "C18:load_detector:error"
+                    ck.violation(key, why, {"case": case, "impl": slim(impl)})
     finally:
         shutil.rmtree(tmp, ignore_errors=True)
 
@@ -654,12 +801,15 @@ def body(ck: common.Check):
                "1-3 wavelengths, image of 4 dtypes, charge as array and/or 1-3 clusters, 0-2 scene sources, 0-2 data-tree nodes) plus "
                "all 64 subsets of the six 2-D containers of an MKID; saved to ASDF, loaded, compared field by field; pipelines with "
                "load_detector in any of the 10 groups, 0-3 writers before, a snapshot probe after, 0-2 writers after, 16 % stored "
-               "detectors of another type / shape. non-trivial = at least one initialised container; HDF5 not exercised")
+               "detectors of another type / shape, 1-3 readouts (destructive / non-destructive) × 1-2 runs in one process on the same "
+               "or a fresh detector, so that the model executes up to 6 times on one file; direct calls of the model function 2-4 times "
+               "on one detector with in-place += / *= and empty() in between; every execution judged against the file. non-trivial = at least one initialised container; HDF5 not exercised")
     ck.assumptions = [
         "6b: equal = same dtype, shape, values, coordinates, frame columns and rows (field by field), never the library's ==",
         "a charge container nothing was added to (zero array, empty frame), an empty scene and an empty data tree count as uninitialised",
         "the charge container is compared through its public view (`charge.array`, `charge.frame`)",
         "load_detector: `data` = the data containers; geometry, environment, characteristics and the readout clock stay the running detector's",
+        "row labels (the pandas index) of the cluster table are handles, not data: columns and rows are compared, the index is not",
         "a stored detector of another type or shape is outside the statement (refused by the repaired model; compared with the Lean model only)",
     ]
     ck.trusted_base.append("C18: the ASDF backend writes and reads back the tree it is given (arrays with dtype and shape, nested dicts, "
